@@ -457,6 +457,13 @@ func goHelper(v VD, lg *runLog) interface{} {
 			o["seen"] = len(o) + 1
 			return "m"
 		}
+	case 111:
+		// like 108, and it shows what it was given: the number of entries before it writes
+		return func(o map[string]interface{}) string {
+			n := len(o)
+			o[fmt.Sprintf("k%d", n)] = n
+			return strconv.Itoa(n)
+		}
 	case 106:
 		ret := v.Els[1].Go(lg)
 		rs, _ := ret.(string)
